@@ -97,7 +97,7 @@ def rangeOne (size : Nat) (s : Sec) (rva min : Nat) : Out (Nat × Nat) :=
   if s.prd ≤ stop ∧ stop ≤ size then
     let so := rva - s.va
     let slen := stop - s.prd
-    if so ≤ slen ∧ slen - so ≥ min then .ok (s.prd + so, slen - so)
+    if so < slen ∧ slen - so ≥ min then .ok (s.prd + so, slen - so)
     else if min > vend - rva then .err .bounds else .err .zeroFill
   else .err .invalid
 
@@ -129,7 +129,7 @@ theorem rawRange_ok_iff {s : Sec} (hs : s.InRange) (size : Nat) :
 theorem rangeOne_nowrap {s : Sec} {size : Nat} (h1 : s.prd + s.rs < 4294967296)
     (h2 : s.prd + s.rs ≤ size) (rva min : Nat) :
     rangeOne size s rva min =
-      if rva - s.va ≤ s.rs ∧ min ≤ s.rs - (rva - s.va) then .ok (s.prd + (rva - s.va), s.rs - (rva - s.va))
+      if rva - s.va < s.rs ∧ min ≤ s.rs - (rva - s.va) then .ok (s.prd + (rva - s.va), s.rs - (rva - s.va))
       else if min > wadd32 s.va (max s.vs s.rs) - rva then .err .bounds else .err .zeroFill := by
   have hw : wadd32 s.prd s.rs = s.prd + s.rs := by unfold wadd32; omega
   unfold rangeOne
@@ -137,11 +137,11 @@ theorem rangeOne_nowrap {s : Sec} {size : Nat} (h1 : s.prd + s.rs < 4294967296)
 
 theorem rangeOne_ok_iff {s : Sec} (hs : s.InRange) (size rva min o l : Nat) :
     rangeOne size s rva min = .ok (o, l) ↔
-      s.prd + s.rs < 4294967296 ∧ s.prd + s.rs ≤ size ∧ rva - s.va ≤ s.rs ∧
+      s.prd + s.rs < 4294967296 ∧ s.prd + s.rs ≤ size ∧ rva - s.va < s.rs ∧
       min ≤ s.rs - (rva - s.va) ∧ o = s.prd + (rva - s.va) ∧ l = s.rs - (rva - s.va) := by
   by_cases hr : s.prd + s.rs < 4294967296 ∧ s.prd + s.rs ≤ size
   · rw [rangeOne_nowrap hr.1 hr.2]
-    by_cases hc : rva - s.va ≤ s.rs ∧ min ≤ s.rs - (rva - s.va)
+    by_cases hc : rva - s.va < s.rs ∧ min ≤ s.rs - (rva - s.va)
     · simp only [hc, and_self, if_true, Out.ok.injEq, Prod.mk.injEq, hr, true_and]
       constructor
       · rintro ⟨rfl, rfl⟩; exact ⟨rfl, rfl⟩
